@@ -2312,9 +2312,8 @@ func ackTypes(t int8) []int8 {
 // hasRenew is true if any entry has AckRenew status.
 //
 // Entries and gaps are sorted by offset before coalescing so that
-// contiguous same-type ranges merge regardless of insertion order.
-// The two are built separately (gaps are acked immediately so they
-// rarely coalesce with user entries).
+// contiguous same-type ranges merge regardless of insertion order,
+// and the two sorted lists are merged so the result is ascending.
 func buildAckRanges(entries []*shareAckState, gaps []shareAckRange) (ranges []shareAckRange, hasRenew bool) {
 	slices.SortFunc(entries, func(a, b *shareAckState) int {
 		return cmp.Compare(a.offset, b.offset)
@@ -2328,6 +2327,12 @@ func buildAckRanges(entries []*shareAckState, gaps []shareAckRange) (ranges []sh
 	// Both entries read the same final status, so emit only one. Without
 	// this, the request carries two adjacent [X,X,T] batches and the
 	// broker rejects with INVALID_RECORD_STATE.
+	//
+	// Gaps and user entries are emitted in one ascending pass: the
+	// broker requires a partition's acknowledgement batches to be in
+	// ascending, non-overlapping offset order, and a gap can sit below
+	// a pending user ack (e.g. a transaction marker that is acquired
+	// on redelivery while higher offsets are still unacknowledged).
 	var lastOffset int64 = -1
 	for _, e := range entries {
 		t := int8(e.status.Load())
@@ -2340,6 +2345,10 @@ func buildAckRanges(entries []*shareAckState, gaps []shareAckRange) (ranges []sh
 		lastOffset = e.offset
 		if t == int8(AckRenew) {
 			hasRenew = true
+		}
+		for len(gaps) > 0 && gaps[0].firstOffset < e.offset {
+			ranges = coalesceAppendRange(ranges, gaps[0])
+			gaps = gaps[1:]
 		}
 		ranges = coalesceAppendRange(ranges, shareAckRange{
 			firstOffset:  e.offset,
